@@ -14,4 +14,8 @@ def run(repo, res, tier):
     hookrules.rule_h1(repo, res)
     hookrules.rule_h2(repo, res)
     hookrules.rule_h3(repo, res)
+    # a substitute class given to one parser/decoder must not be remembered for (or by) another instance
+    from .. import effects as _eff
+    _eff.rule_shared_class_state(repo, res)
+    _eff.rule_memo(repo, res)
     hookrules.rule_no_hardcoded_containers(repo, res)
